@@ -1441,6 +1441,7 @@ class LifecycleMonitor:
         self.env = env
         self.history = {}       # task instance name -> [status, ...] (changes only)
         self.pending = []       # cancel calls of the current time step still to be judged
+        self.delivered = {}     # task instance name -> CancelTask signals delivered in this step
         self.judged = 0
         sess = env.sess
         sess.boundary_hooks.append(self.sample)
@@ -1451,6 +1452,13 @@ class LifecycleMonitor:
 
     def sample(self, sess, loop=None, target=None, signal=None):
         env = self.env
+        if isinstance(signal, CancelTask) and not getattr(signal, '_revoked', False):
+            # a cancellation on its way into the task: counted where the loop delivers it (what
+            # the task's own code gets to see may be fewer - clean-up code of a primitive that is
+            # struck twice hands on the later signal only)
+            name = env.task_names.get(id(signal.subject))
+            if name is not None:
+                self.delivered[name] = self.delivered.get(name, 0) + 1
         for name, task in env.task_inst.items():
             now = self.status(task)
             seq = self.history.setdefault(name, [])
@@ -1505,7 +1513,7 @@ class LifecycleMonitor:
             # survives the step (clean-up that takes time) has been struck once per call
             here = [call for call in calls if call[0] == prev_time and call[2] == 'RUNNING']
             if len(here) > 1 and not task.done:
-                delivered = len(env.cancel_delivered.get(name, ()))
+                delivered = self.delivered.get(name, 0)
                 sess.stats['c06_repeated_cancels_judged'] += 1
                 if 1 <= delivered < len(here):
                     sess.violation(
@@ -1514,6 +1522,7 @@ class LifecycleMonitor:
                         'unwinding at the end of that time step but only %d cancellation(s) '
                         'were raised in it' % (name, len(here), prev_time, delivered))
         env.cancel_delivered.clear()
+        self.delivered.clear()
 
     def finish(self):
         env = self.env
